@@ -26,7 +26,6 @@ from rig import proxy_rig as P                # noqa: E402
 from rig.proxy_rig import (Rig, PyConn, Outcome, Inconclusive, DaemonDied, ClientGone,   # noqa: E402
                            AbortSchedule, C18Controller, Monitor, classify_sanitizer)
 
-RSS_LIMIT_MB = 3000          # safety net for the shared machine (a daemon that allocates without bound is killed by ASan)
 MAX_SILENT = 6               # silent faulty connections kept open at the same time
 JUNK = 4096                  # trailing bytes after a header whose length field is out of range
 
@@ -410,7 +409,6 @@ def gen_fault_batches(lay, ioc, seed, tier, nbatch_w, nbatch_s):
 class C19Rig(Rig):
     def __init__(self, repo, tag="c19"):
         Rig.__init__(self, repo, "select", tag=tag)
-        self.denv["ASAN_OPTIONS"] = self.denv["ASAN_OPTIONS"] + ":hard_rss_limit_mb=%d" % RSS_LIMIT_MB
         self._err_off = 0
         self._conn_n = 0
 
@@ -431,6 +429,33 @@ class C19Rig(Rig):
         c.peer = "_" + name            # how hook H1 prints the abstract address
         self.conns.append(c)
         return c
+
+    def fd_profile(self):
+        """-> (sockets, fifos, listing) of the daemon's open file descriptors.  Only what a client
+        connection can make the daemon hold is counted: sockets (connections) and FIFOs (the
+        simulated device's tick pipe); regular files (trace, logs, whatever the sanitizer
+        runtime opens for itself) are listed for the record but are not the daemon's client resources."""
+        d = "/proc/%d/fd" % self.daemon.pid
+        socks = fifos = 0
+        names = []
+        try:
+            for f in os.listdir(d):
+                try:
+                    t = os.readlink(os.path.join(d, f))
+                except OSError:
+                    continue
+                names.append("%s=%s" % (f, t))
+                if t.startswith("socket:"):
+                    socks += 1
+                elif t.startswith("pipe:") or t == self.fifo:
+                    fifos += 1
+        except OSError:
+            return -1, -1, ""
+        return socks, fifos, " ".join(sorted(names))
+
+    def daemon_fds(self):
+        s, f, _ = self.fd_profile()
+        return -1 if s < 0 else s + f
 
     def device_open_count(self):
         self.trace_tail()
@@ -806,8 +831,8 @@ class FaultBatch:
             have = rig.daemon_fds()
         out.count("fd_checks")
         if have >= 0 and have != want:
-            self.v("model:C19:fd-leak", "daemon holds %d file descriptors, expected %d (baseline %d + %d faulty connections still open)"
-                   % (have, want, self.baseline, len(self.silent)))
+            self.v("model:C19:fd-leak", "daemon holds %d sockets+pipes, expected %d (baseline %d + %d faulty connections still open): %s"
+                   % (have, want, self.baseline, len(self.silent), rig.fd_profile()[2]))
             self.baseline += have - want            # report once, not for every following case
         if self.wit is None:
             if not self.silent and rig.device_open_count() != 0:
@@ -860,8 +885,8 @@ class FaultBatch:
                     have = rig.daemon_fds()
                 out.count("fd_checks")
                 if have >= 0 and have != self.fd0:
-                    self.v("model:C19:fd-leak", "after the last client left the daemon holds %d file descriptors, %d at start-up"
-                           % (have, self.fd0))
+                    self.v("model:C19:fd-leak", "after the last client left the daemon holds %d sockets+pipes, %d at start-up: %s"
+                           % (have, self.fd0, rig.fd_profile()[2]))
             except DaemonDied as e:
                 died = str(e)
             except (AbortSchedule, ClientGone) as e:
@@ -891,9 +916,6 @@ class FaultBatch:
         found = classify_sanitizer(text, self.repo, out.counters)
         for k, d in found:
             self.v(k, "daemon: " + d)
-        if "hard rss limit exhausted" in text:
-            self.v("model:C19:daemon-memory-exhausted", "the daemon grew beyond %d MB and was stopped" % RSS_LIMIT_MB)
-            found.append(("rss", ""))
         if died is not None or not was_alive:
             out.count("daemon_deaths")
             if not found:
@@ -1584,8 +1606,8 @@ class TokenRun(FaultBatch):
                     have = rig.daemon_fds()
                 out.count("fd_checks")
                 if have >= 0 and have != self.fd0:
-                    self.v("model:C19:fd-leak", "after the last client left the daemon holds %d file descriptors, %d at start-up"
-                           % (have, self.fd0))
+                    self.v("model:C19:fd-leak", "after the last client left the daemon holds %d sockets+pipes, %d at start-up: %s"
+                           % (have, self.fd0, rig.fd_profile()[2]))
             except DaemonDied as e:
                 died = str(e)
             except (AbortSchedule, ClientGone, Inconclusive) as e:
